@@ -20,11 +20,12 @@ PROP = {
         "held size is measured in body bytes of the entries that the plugin serves at that instant over the whole key space (a lower bound of the plugin's own size measure); expired entries awaiting clean-up are not observable",
         "a response without a usable retry-after value can never be replayed; which statuses the throttling remedy stores is not part of the statement",
         "the clean-up goroutine is observed through goroutine counts (runtime.NumGoroutine equals the count before the case plus the pending clock timers); a 20 s wall-clock watchdog only turns a hang into 'inconclusive'",
-        "free-running bursts are generated only with the 1 MB cache (the size race is exercised deterministically by the suspended-writer pair); config does not change inside a history",
+        "free-running bursts are generated only with the 1 MB cache (the size race is exercised deterministically by the suspended-writer pair); config does not change inside a history of the two history units; the unit TestCacheSizeAcrossConfigs interleaves stores under 2-3 caching configurations with different size limits on the one cache the gateway has: after an accepted store under configuration X the replayable body bytes must not exceed X's limit (a limit that shrinks below what is held need not evict)",
     ],
     "units": [
         {"pkg": "c12", "test": "TestCachingHistories", "quick": 6000, "thorough": 60000, "shards": 16},
         {"pkg": "c12", "test": "TestThrottlingHistories", "quick": 6000, "thorough": 60000, "shards": 16},
+        {"pkg": "c12", "test": "TestCacheSizeAcrossConfigs", "quick": 3000, "thorough": 30000, "shards": 8},
         {"pkg": "c12", "test": "TestWitnessHeldWriterExceedsCacheSize", "kind": "plain"},
     ],
     "technique": ("property-based testing (rapid) of generated request/response/clock/schedule histories on a harness-owned virtual clock whose timers the "
